@@ -66,3 +66,9 @@ add("C15", "fault_enumeration",
     "Scripts of ingest, seal+rotate, real size-based retention (maintenance through Start/Stop with a budget of the newest k fractions) and explicit deletion of a never-sealed and of a sealed fraction are journaled; every journal prefix (plus torn data / cache writes), crossed with .frac-cache as is / missing / garbage / truncated / any earlier version, is recovered by the real loader in a child: the store must start, every fraction is completely served or completely gone, a fraction whose deletion has begun never reappears and untouched fractions are served; 24 further sequences check that retention leaves a suffix of the creation order. Found and repaired: an interrupted deletion of an active fraction (and an interrupted creation, see C01) left a lone .docs file that stopped every later start.",
     "Trusted: Model A persistence (atomic, ordered, durable namespace operations); a retention budget smaller than the fraction being written is treated as misconfiguration and not generated.",
     "DESIGN.md §3 C15", "E2-vos")
+
+add("C19", "fault_enumeration",
+    "differential check async vs sync search on real stores in child processes + exhaustive restart injection at every prefix of the async data dir's file-operation journal",
+    "For every corpus (1-3 fractions, active/sealed, one with a document re-delivered into a second fraction) and every request kind (plain, histogram, five aggregation kinds, both orders) the async search's result at Done must equal Searcher.SearchDocs with the same parameters; then the store is restarted from every crash state of the journal of .info/.qpr atomic writes (every prefix, torn temp files): the search must resume and end with that same result, or be unknown if the crash precedes the return of StartSearch. Found and repaired: result merge with a hard-coded histogram interval (corrupt histogram / nil-map panic with a re-delivered document).",
+    "Trusted: persistence Model A for the async data dir; fractions are not deleted between start and restart. A resumed search that never finishes is reported only after two runs with a 3 s and a 30 s horizon.",
+    "DESIGN.md §3 C19", "E2-vos")
